@@ -38,7 +38,9 @@ type Node struct {
 	stopped bool
 	started bool
 	inc     int
-	rn      *raft.RawNode
+	rn      *raft.RawNode // introspection (hooks); nil while the node is down
+	api     raftAPI       // what the executor drives: the RawNode itself, or a raft.Node around it (E3)
+	drv     *nodeDriver   // E3 only
 	disk    *Disk
 	app     *App
 	rnd     *nodeRand
@@ -191,16 +193,25 @@ func NewCluster(rc RunConfig, opt Options) *Cluster {
 	// Start everyone.
 	for _, id := range c.ids {
 		n := c.nodes[id]
-		c.startNode(n, 0, false)
+		var peers []raft.Peer
+		if rc.Bootstrap && member[id] {
+			for _, v := range rc.Voters {
+				peers = append(peers, raft.Peer{ID: v})
+			}
+		}
+		if rc.NodeAPI {
+			// StartNode bootstraps by itself
+			c.startNode(n, 0, false, peers...)
+		} else {
+			c.startNode(n, 0, false)
+		}
 		if c.viol != nil {
 			break
 		}
 		if rc.Bootstrap && member[id] && n.up {
-			var peers []raft.Peer
-			for _, v := range rc.Voters {
-				peers = append(peers, raft.Peer{ID: v})
+			if !rc.NodeAPI {
+				n.call("Bootstrap", nil, func() error { return n.rn.Bootstrap(peers) })
 			}
-			n.call("Bootstrap", nil, func() error { return n.rn.Bootstrap(peers) })
 			// Bootstrapping is completed (its first write group made durable)
 			// before the node starts serving; a crash in the middle of it is the
 			// application's problem to repair (it would bootstrap again).
@@ -260,13 +271,13 @@ func (c *Cluster) finishBootstrap(n *Node) {
 		if n.up && n.rd != nil {
 			rd := *n.rd
 			n.rd = nil
-			n.call("Advance", nil, func() error { n.rn.Advance(rd); return nil })
+			n.call("Advance", nil, func() error { n.api.Advance(rd); return nil })
 		}
 	}
 }
 
 // startNode (re)creates the RawNode on the node's current page storage.
-func (c *Cluster) startNode(n *Node, applied uint64, restart bool) {
+func (c *Cluster) startNode(n *Node, applied uint64, restart bool, peers ...raft.Peer) {
 	n.inc++
 	n.rnd = newNodeRand(c.rc.Seed, n.id, n.inc)
 	n.logger = &simLogger{c: c, id: n.id}
@@ -276,20 +287,40 @@ func (c *Cluster) startNode(n *Node, applied uint64, restart bool) {
 	n.restartApplied = applied
 	cfg := c.raftConfig(n, applied)
 	var rn *raft.RawNode
+	var api raftAPI
 	ok := c.guard(n, "NewRawNode", func() error {
 		var err error
+		if c.rc.NodeAPI {
+			// E3: StartNode (bootstrap style, first start of a member) or RestartNode
+			var d *nodeDriver
+			d, err = startNodeDriver(cfg, peers)
+			if d != nil {
+				n.drv, rn, api = d, d.rn, d
+			}
+			return err
+		}
 		rn, err = raft.NewRawNode(cfg)
+		api = rn
 		return err
 	})
 	if !ok || rn == nil {
-		n.up = false
+		n.down()
 		return
 	}
-	n.rn = rn
+	n.rn, n.api = rn, api
 	n.up = true
 	n.started = true
 	n.st = rn.VerifState()
 	c.chk.onStart(n, restart)
+}
+
+// down marks the node as not running. In E3 the run loop goroutine is ended.
+func (n *Node) down() {
+	n.up, n.rn, n.api = false, nil, nil
+	if n.drv != nil {
+		n.drv.stop()
+		n.drv = nil
+	}
 }
 
 // guard runs f with the node's randomness current and converts panics into
@@ -300,7 +331,12 @@ func (c *Cluster) guard(n *Node, what string, f func() error) (ok bool) {
 		seam.cur = nil
 		if r := recover(); r != nil {
 			ok = false
-			site := panicSite(debug.Stack())
+			stack := debug.Stack()
+			if np, isNP := r.(nodePanic); isNP {
+				// the run loop goroutine of a raft.Node panicked (E3)
+				r, stack = np.val, np.stack
+			}
+			site := panicSite(stack)
 			msg := fmt.Sprintf("%v", r)
 			c.chk.onPanic(n, what, msg, site)
 		}
@@ -348,8 +384,7 @@ func (n *Node) call(what string, m *pb.Message, f func() error) (err error) {
 	ok := c.guard(n, what, func() error { err = f(); return err })
 	if !ok {
 		// The node is dead after a panic.
-		n.up = false
-		n.rn = nil
+		n.down()
 		return nil
 	}
 	c.chk.postCall(n, &callCtx{what: what, msg: m, err: err})
@@ -467,7 +502,8 @@ func (c *Cluster) exec(a Action) bool {
 		if n.up {
 			c.chk.onCrash(n)
 		}
-		n.up, n.stopped, n.rn = false, true, nil
+		n.down()
+		n.stopped = true
 		n.rd = nil
 		return true
 	}
@@ -478,7 +514,7 @@ func (c *Cluster) exec(a Action) bool {
 	case ATick:
 		n.ticks++
 		c.stats.Ticks++
-		n.call("Tick", nil, func() error { n.rn.Tick(); return nil })
+		n.call("Tick", nil, func() error { n.api.Tick(); return nil })
 		return true
 	case AReady:
 		return c.doReady(n)
@@ -492,7 +528,7 @@ func (c *Cluster) exec(a Action) bool {
 		}
 		rd := *n.rd
 		n.rd = nil
-		n.call("Advance", nil, func() error { n.rn.Advance(rd); return nil })
+		n.call("Advance", nil, func() error { n.api.Advance(rd); return nil })
 		return true
 	case AAppendStep:
 		return c.doAppendStep(n)
@@ -509,19 +545,19 @@ func (c *Cluster) exec(a Action) bool {
 	case AReadIndex:
 		ctx := []byte(fmt.Sprintf("r%d", a.I))
 		c.chk.onReadIssue(n, a.I)
-		n.call("ReadIndex", nil, func() error { n.rn.ReadIndex(ctx); return nil })
+		n.call("ReadIndex", nil, func() error { n.api.ReadIndex(ctx); return nil })
 		return true
 	case ATransfer:
-		n.call("TransferLeader", nil, func() error { n.rn.TransferLeader(a.M); return nil })
+		n.call("TransferLeader", nil, func() error { n.api.TransferLeader(a.M); return nil })
 		return true
 	case ACampaign:
-		n.call("Campaign", nil, func() error { return n.rn.Campaign() })
+		n.call("Campaign", nil, func() error { return n.api.Campaign() })
 		return true
 	case AForgetLeader:
-		n.call("ForgetLeader", nil, func() error { return n.rn.ForgetLeader() })
+		n.call("ForgetLeader", nil, func() error { return n.api.ForgetLeader() })
 		return true
 	case AUnreachable:
-		n.call("ReportUnreachable", nil, func() error { n.rn.ReportUnreachable(a.M); return nil })
+		n.call("ReportUnreachable", nil, func() error { n.api.ReportUnreachable(a.M); return nil })
 		c.stats.fault("unreachable_report")
 		return true
 	case ASnapReport:
@@ -529,7 +565,7 @@ func (c *Cluster) exec(a Action) bool {
 		if !a.B {
 			st = raft.SnapshotFailure
 		}
-		n.call("ReportSnapshot", nil, func() error { n.rn.ReportSnapshot(a.M, st); return nil })
+		n.call("ReportSnapshot", nil, func() error { n.api.ReportSnapshot(a.M, st); return nil })
 		return true
 	case ACompact:
 		return c.doCompact(n, a)
@@ -733,7 +769,7 @@ func (c *Cluster) doDeliver(a Action) bool {
 	if c.step-f.SentStep > 400 {
 		c.stats.fault("msg_late")
 	}
-	n.call("Step", m, func() error { return n.rn.Step(m) })
+	n.call("Step", m, func() error { return n.api.Step(m) })
 	return true
 }
 
@@ -745,15 +781,15 @@ func (c *Cluster) doReady(n *Node) bool {
 		return false
 	}
 	var has bool
-	if !c.guard(n, "HasReady", func() error { has = n.rn.HasReady(); return nil }) {
-		n.up, n.rn = false, nil
+	if !c.guard(n, "HasReady", func() error { has = n.api.HasReady(); return nil }) {
+		n.down()
 		return true
 	}
 	if !has {
 		return false
 	}
 	var rd raft.Ready
-	n.call("Ready", nil, func() error { rd = n.rn.Ready(); return nil })
+	n.call("Ready", nil, func() error { rd = n.api.Ready(); return nil })
 	if !n.up {
 		return true
 	}
@@ -851,7 +887,7 @@ func (c *Cluster) guardDisk(n *Node, f func() error) (ok bool) {
 		if r := recover(); r != nil {
 			ok = false
 			c.chk.onPanic(n, "Storage.Append", fmt.Sprintf("%v", r), "MemoryStorage")
-			n.up, n.rn = false, nil
+			n.down()
 		}
 	}()
 	if err := f(); err != nil {
@@ -945,11 +981,11 @@ func (c *Cluster) applyEntries(n *Node, ents []*pb.Entry) {
 			var cs *pb.ConfState
 			switch dec {
 			case ccApply:
-				n.call("ApplyConfChange", nil, func() error { cs = n.rn.ApplyConfChange(cci); return nil })
+				n.call("ApplyConfChange", nil, func() error { cs = n.api.ApplyConfChange(cci); return nil })
 			case ccCancel:
 				c.stats.probe("confchange_cancelled_at_apply")
 				z := zeroIDs(ccv2)
-				n.call("ApplyConfChange", nil, func() error { cs = n.rn.ApplyConfChange(z); return nil })
+				n.call("ApplyConfChange", nil, func() error { cs = n.api.ApplyConfChange(z); return nil })
 			case ccSkip:
 				c.stats.probe("confchange_skipped_at_apply")
 			}
@@ -1004,7 +1040,7 @@ func (c *Cluster) deliverResponses(n *Node, resps []*pb.Message) {
 			if c.viol != nil {
 				return
 			}
-			n.call("Step", r, func() error { return n.rn.Step(r) })
+			n.call("Step", r, func() error { return n.api.Step(r) })
 		} else {
 			c.netSend(n, r)
 		}
@@ -1064,10 +1100,16 @@ func (c *Cluster) doPropose(n *Node, a Action) bool {
 	var err error
 	m := &pb.Message{Type: pb.MsgProp.Enum(), From: new(n.id), Entries: ents}
 	wasLeader := isLeader(&n.st)
+	if a.M == 1 && n.drv != nil && len(ents) == 1 && !a.B {
+		// E3: the proposer's context ends between the hand-over of the proposal
+		// to the run loop and the posting of its outcome
+		n.drv.cancelNext = true
+		c.stats.fault("proposer_context_cancelled")
+	}
 	if len(ents) == 1 && !a.B {
-		err = n.call("Propose", m, func() error { return n.rn.Propose(ents[0].GetData()) })
+		err = n.call("Propose", m, func() error { return n.api.Propose(ents[0].GetData()) })
 	} else {
-		err = n.call("Propose", m, func() error { return n.rn.Step(m) })
+		err = n.call("Propose", m, func() error { return n.api.Step(m) })
 	}
 	if a.J == 1 && wasLeader {
 		// The client reuses its payload buffer once the call has returned. Only
@@ -1122,13 +1164,13 @@ func (c *Cluster) doConfChange(n *Node, a Action) bool {
 		}
 		m.Entries = append(m.Entries, ents...)
 		c.chk.onProposeCall(n, a.Tags, ents)
-		perr := n.call("ProposeConfChange", m, func() error { return n.rn.Step(m) })
+		perr := n.call("ProposeConfChange", m, func() error { return n.api.Step(m) })
 		c.chk.onConfProposeReturn(n, a.I, perr)
 		c.chk.onProposeReturn(n, a.Tags, perr)
 		return true
 	}
 	if a.CC2 == nil {
-		err := n.call("ProposeConfChange", nil, func() error { return n.rn.ProposeConfChange(cc) })
+		err := n.call("ProposeConfChange", nil, func() error { return n.api.ProposeConfChange(cc) })
 		c.chk.onConfProposeReturn(n, a.I, err)
 		return true
 	}
@@ -1144,7 +1186,7 @@ func (c *Cluster) doConfChange(n *Node, a Action) bool {
 		}
 		m.Entries = append(m.Entries, &pb.Entry{Type: typ.Enum(), Data: data})
 	}
-	err := n.call("ProposeConfChange", m, func() error { return n.rn.Step(m) })
+	err := n.call("ProposeConfChange", m, func() error { return n.api.Step(m) })
 	c.chk.onConfProposeReturn(n, a.I, err)
 	return true
 }
@@ -1269,7 +1311,7 @@ func (c *Cluster) doCrash(n *Node, a Action) bool {
 	c.stats.fault(cutKind)
 	c.stats.Crashes++
 	c.chk.onCrash(n)
-	n.up, n.rn = false, nil
+	n.down()
 	n.rd = nil
 	n.appendQ, n.appendResps, n.applyQ, n.applyResps = nil, nil, nil, nil
 	c.chk.onWrite(n)
